@@ -46,6 +46,19 @@ def cases(tier, seed):
                 base["cx"] = {"cs": [], "comps": [{"b": b_, "m": list(rng.choice([[64, 0, 0, 64], [-64, 0, 0, 64]])), "d": [0, rng.randint(-40, 40) * P]}],
                               "anchors": [], "w": 500 * P, "h": 0, "u": []}
                 directed = b_
+        nested = None
+        if path == "TTFsFromDS" and not directed and rng.random() < 0.3:
+            # flattenComponents with a sparse master that holds a NESTED composite but not the intermediate composite it goes
+            # through (barcolon = bar + colon, colon = dot + dot; the sparse layer has barcolon only)
+            simple = [n_ for n_ in sorted(base) if base[n_]["cs"] and not base[n_]["comps"]]
+            if len(simple) >= 2:
+                P = absfont.PS
+                d_, b_ = simple[0], simple[1]
+                base["colonx"] = {"cs": [], "comps": [{"b": d_, "m": [64, 0, 0, 64], "d": [0, 0]}, {"b": d_, "m": [64, 0, 0, 64], "d": [0, 300 * P]}],
+                                  "anchors": [], "w": 300 * P, "h": 0, "u": []}
+                base["barcolonx"] = {"cs": [], "comps": [{"b": b_, "m": [64, 0, 0, 64], "d": [0, 0]}, {"b": "colonx", "m": [64, 0, 0, 64], "d": [rng.randint(100, 300) * P, 0]}],
+                                     "anchors": [], "w": 600 * P, "h": 0, "u": []}
+                nested = (d_, b_)
         nm = rng.choice([2, 3])
         masters = [base] + [gen.perturb_master(rng, base, palette=c02.PALETTE_TT, change_2x2=0.12 if path != "OTFsFromDS" else 0.0)
                             for _ in range(nm - 1)]
@@ -55,6 +68,11 @@ def cases(tier, seed):
             pick = [n_ for n_ in names if rng.random() < 0.4] or names[:1]
             sp = gen.perturb_master(rng, {n_: base[n_] for n_ in names}, change_2x2=0.0)
             sparse = {n_: sp[n_] for n_ in pick}
+        if nested:
+            names = sorted(base)
+            sp = gen.perturb_master(rng, {n_: base[n_] for n_ in names}, change_2x2=0.0)
+            pick = {"barcolonx"} | ({nested[1]} if rng.random() < 0.5 else set())
+            sparse = {n_: sp[n_] for n_ in sorted(pick)}
         if directed:
             names = sorted(base)
             sp = gen.perturb_master(rng, {n_: base[n_] for n_ in names}, change_2x2=0.0)
@@ -73,7 +91,7 @@ def cases(tier, seed):
         kwargs = {}
         if path == "OTFsFromDS":
             kwargs["optimizeCFF"] = rng.choice([0, 1])     # (subroutinisation is not meant for interpolatable masters)
-        if "TTF" in path and rng.random() < 0.4:
+        if "TTF" in path and (nested or rng.random() < 0.4):
             kwargs["flattenComponents"] = True
         skip = []
         if path != "TTFs" and rng.random() < 0.3:
